@@ -107,7 +107,18 @@ def gen_config(rnd, m):
         # or immediate probes with a declared variable as context of a later binding
         specific = list(declared) + (rnd.sample(names, min(len(names), 2)) if names else [])
     abstainers = [n for n in supplied if rnd.random() < 0.5]
-    return {"instr": instr, "supplied": supplied, "how": how, "specific": specific, "abstainers": abstainers}
+    # a declared variable that carries a tag of its own may be selected by that tag alone ($v:@T)
+    bytag = {}
+    other_anns = [set(t) for lst in (m.get("anns") or {}).values() for t in lst]
+    for n in supplied:
+        tags = m["decl_ann"].get(n)
+        if not tags or rnd.random() < 0.4:
+            continue
+        others = set().union(*other_anns, *[set(m["decl_ann"].get(o) or ()) for o in declared if o != n]) if (other_anns or len(declared) > 1) else set()
+        own = [t for t in tags if t not in others]
+        if own:
+            bytag[n] = rnd.choice(own)
+    return {"instr": instr, "supplied": supplied, "how": how, "specific": specific, "abstainers": abstainers, "bytag": bytag}
 
 
 def run_config(mod, m, cfg, argi, events):
@@ -147,6 +158,9 @@ def run_config(mod, m, cfg, argi, events):
         cms.append(p)
     for name, val in cfg["supplied"].items():
         sel = f"f > {name}"
+        if name in (cfg.get("bytag") or {}):
+            ns.setdefault("tag", __import__("ptera").tag)
+            sel = f"f > $v:@{cfg['bytag'][name]}"
         if cfg["how"] == "override":
             p = probing(sel, env=ns, overridable=True)
             p.override(val)
@@ -289,6 +303,7 @@ def check_program(m, mod, rnd, res, case_base, nconf, watch, mode="main", findin
                     continue
                 res.violation(case, {"what": "call differs from the reference twin (supplied values / unused undefined globals)", "diff": prorun.describe_diff(ref, out, d)})
             res.count("instr_" + cfg["instr"])
+            res.count("declared_supplied_by_tag_only", len(cfg.get("bytag") or {}))
 
 
 NAME_FAMILY = ("RefDeclared", "NameError", "UnboundLocalError", "PteraNameError")
